@@ -100,6 +100,10 @@ func c03LinkMode(name string) int32 {
 		return 8
 	case "nilreply":
 		return 9
+	case "int1reply":
+		return 10
+	case "int2reply":
+		return 11
 	}
 	return -1
 }
@@ -178,7 +182,7 @@ func c03Hook(c *server.Peer, cmd string, args ...string) bool {
 		}
 		c.WriteError(c03DownMsg)
 		return true
-	case 6, 7, 8, 9:
+	case 6, 7, 8, 9, 10, 11:
 		if isPing {
 			c.WriteError(c03PingMsg)
 			return true
@@ -191,6 +195,10 @@ func c03Hook(c *server.Peer, cmd string, args ...string) bool {
 				c.WriteInt(3)
 			case 8:
 				c.WriteInt(-1)
+			case 10:
+				c.WriteInt(1)
+			case 11:
+				c.WriteInt(2)
 			default:
 				c.WriteNull()
 			}
@@ -332,7 +340,7 @@ func c03GenPeriod(r *verifh.Rng) verifh.Section {
 					ops = append(ops, "ftake "+k)
 				case 4, 5:
 					// the server answers without running the script: string / integer that is no code / nil
-					ops = append(ops, "link "+r.PickS("strreply", "int3reply", "intm1reply", "nilreply"), "take "+k,
+					ops = append(ops, "link "+r.PickS("strreply", "int3reply", "intm1reply", "nilreply", "int1reply", "int2reply"), "take "+k,
 						fmt.Sprintf("takec %s %d", k, r.Intn(nlim)))
 					if r.Bool() {
 						ops = append(ops, r.PickS("takex ", "taked ", "takef ")+k)
@@ -623,13 +631,13 @@ func c03GenToken(r *verifh.Rng) verifh.Section {
 					ops = append(ops, "ping")
 				}
 			} else {
-				switch r.Intn(9) {
-				case 7:
+				switch r.Intn(12) {
+				case 7, 9, 10:
 					// the reply is lost after the script ran, the caller sees its deadline: refused, the bucket is charged
 					ops = append(ops, fmt.Sprintf("lallow %d %d %d deadline", i, now(), size()))
 					allow(i)
 					allow(r.Intn(ninst))
-				case 8:
+				case 8, 11:
 					// … the caller sees an i/o timeout: a store failure; pings are held so that the instance stays local
 					ops = append(ops, "upstore")
 					state = 2
@@ -640,7 +648,7 @@ func c03GenToken(r *verifh.Rng) verifh.Section {
 				case 5, 6:
 					// the server answers without running the script: a string (-> rescue mode), an integer that is not 1,
 					// a nil reply (-> refused); requests of every size, then back to the ONE bucket
-					m := r.PickS("strreply", "strreply", "int3reply", "intm1reply", "nilreply")
+					m := r.PickS("strreply", "strreply", "int3reply", "intm1reply", "nilreply", "int1reply", "int2reply")
 					ops = append(ops, "link "+m)
 					for q := 0; q < ninst; q++ {
 						ops = append(ops, fmt.Sprintf("allow %d %d %d", q, now(), r.Pick(1, burst, burst+1, burst+3, r.Range(0, burst+1))))
